@@ -39,8 +39,10 @@ REGISTRATION = {
     "note": COMMON_NOTE + "Modelled, not verified: what the decode loop does after the client disconnected (the select "
             "in flushPending is then nondeterministic; disconnect_prefix covers what the client holds, L2 monitors the rest), "
             "stop strings reach the runner through JSON and are therefore valid UTF-8 (the stop clauses are stated for valid "
-            "non-empty stops; a stop list with an empty member: empty_stop_streams_nothing; arbitrary-byte stops are covered by L1 "
-            "and by prefix_valid/chunks_valid), "
+            "non-empty stops, where the streamed text is exactly the text before the stop; for non-empty stops of ARBITRARY bytes "
+            "c14_any_stops / stop_found_any give the same clauses with 'the valid part of the text before the stop' "
+            "(trimValid), and a stop list with an empty member streams nothing: empty_stop_streams_nothing — together every "
+            "stop list), "
             "llamarunner's loop and completion handler are executed with greedy sampling only, with pieces free of NUL bytes "
             "and behind a generated one-layer model. Two clauses of the statement are "
             "refuted as written and proved in the weaker true form: 'prefix of the generated text' holds for valid-UTF-8 "
@@ -103,6 +105,11 @@ THEOREMS = [
     "OllamaVerif.C14.cache_is_streamed_tokens",
     "OllamaVerif.C14.cache_at_stop_is_streamed_tokens",
     "OllamaVerif.C14.splitBack_whole",
+    "OllamaVerif.C14.c14_any_stops",
+    "OllamaVerif.C14.stop_found_any",
+    "OllamaVerif.C14.ends_at_eos_or_limit_any",
+    "OllamaVerif.Stop.run_mainG",
+    "OllamaVerif.Stop.step_mainG",
 ]
 # Model variant the oracle is asked to run: 1 = first listed stop (finding F7, fixed in /repo 6e9857ebf), 0 = earliest
 # occurrence.  NOT a constant any more: decided on every run by executing the real FindStop (regenerate_variant), and
@@ -442,8 +449,9 @@ def run(ctx):
     ctx.assumptions += [
         "after a client disconnect (seq.quit closed) the decode loop's behaviour is not modelled (nondeterministic select); "
         "only what the client already holds is (disconnect_prefix, L2 disconnect-*)",
-        "stop strings are valid UTF-8 when they reach the runner (they arrive through encoding/json); the stop clauses "
-        "of the theorems and the L2 stop monitors are stated for valid, non-empty stops",
+        "stop strings are valid UTF-8 when they reach the runner (they arrive through encoding/json); the L2 stop monitors "
+        "are evaluated for valid, non-empty stops (the theorems cover every stop list: c14_script for valid non-empty "
+        "stops, c14_any_stops for non-empty stops of any bytes, empty_stop_streams_nothing for a list with an empty member)",
         "llamarunner's loop is executed with a generated GGUF model (one layer, one-hot embeddings, greedy sampling): what "
         "llama.cpp computes for real weights / other samplers is outside",
         "for generated bytes that are not (a prefix of) valid UTF-8 the L2 monitors keep chunk validity, the reason map, "
